@@ -80,7 +80,8 @@ CLAIMS = {
              "finding only if it equals the deviant track and every fired deviation is listed). Simulated programs reach depth 4. Also enumerated: parenthesised joins, subqueries in ON conditions "
              "and on both sides of a WHERE comparison, nested set operations, WITH in front of UPDATE / MERGE / DELETE; renderer dimensions: "
              "aliases restarting per scope, select-list subquery in ELSE / THEN / function-argument position, MERGE source named directly, "
-             "derived tables with a WITH clause of their own.",
+             "derived tables with a WITH clause of their own; recursive CTEs (event selfref; without the keyword under tsql / oracle / db2); condition "
+             "and select-list subqueries written as WITH queries whose second CTE reads the first; derived tables in the branches of a set operation.",
         note="trusted: TLC, sqlfluff as parser, the token renderer harness/render_stmt.py; one spelling per program here (C07/C08/C09 vary spelling, naming, dialect)"),
     "C09": dict(
         design="5/C09, 3.2",
@@ -150,7 +151,8 @@ CLAIMS = {
              "target, and the explicit column list winning; TLC enumerates every assignment and prints the programs; each is analysed with "
              "DummyMetaDataProvider, with SQLAlchemyMetaDataProvider on an in-memory sqlite holding the same knowledge, and without any "
              "provider (= the program with the knowledge erased); each observation incl. 'table lineage equals the one without metadata' is "
-             "decided by Trace_Col. Also: a column listed by the metadata of several in-scope tables, count(*) next to an expanded wildcard, a parenthesised source query, CREATE TABLE AS into a known target.",
+             "decided by Trace_Col. Also: a column listed by the metadata of several in-scope tables, count(*) next to an expanded wildcard, a parenthesised source query, CREATE TABLE AS into a known target; lateral column alias references "
+             "(reference kind Lat, configuration key on / off, provider given / not given, the name known / not known as a column of a relation in scope).",
         note="trusted: TLC, the renderer, sqlite as the database behind the SQLAlchemy provider; knowledge: s.a(c,d), s.b(c,e), target t1..tn"),
     "C16": dict(
         design="5/C16, 3.1",
